@@ -5,7 +5,7 @@ from fractions import Fraction
 
 from . import refnum as R
 from . import refparse
-from .common import Stats, Violation, hx, pmap, shim
+from .common import Stats, Violation, hx, pmap, shim, finish
 
 L5 = [0, 1, 1 << 31, (1 << 32) - 2, (1 << 32) - 1]
 L8 = L5 + [2, (1 << 31) - 1, 1 << 16]
@@ -276,7 +276,7 @@ def run_c05(tier):
                     {'op': 'from_vec', 'limbs': [0, 4294967295, 0]},
                     {'op': 'new', 'n': str(ISIZE_MIN)}],
     }
-    return cov, st.violations
+    return finish(cov, st)
 
 
 # ------------------------------------------------------------------ C06 / C07 / C09 (rationals)
@@ -573,7 +573,7 @@ def run_c06(tier):
                     {'op': 'new', 'up': -6, 'down': 4, 'expected': '-3/2'},
                     {'op': 'mul', 'a': '4294967295/4294967296', 'b': 'NaN', 'expected': R.NAN_TEXT}],
     }
-    return cov, st.violations
+    return finish(cov, st)
 
 
 def _c06_misc(kind, pairs, seeds, depth2):
@@ -695,7 +695,7 @@ def run_c07(tier):
         'samples': [{'cmp': ['5', '10'], 'expected': 'L'}, {'cmp': ['1/2', '1/3'], 'expected': 'G'},
                     {'calc': {'area': '♥?♡', 'count': 10, 'pops': ['5']}, 'expected': 'left (♥)'}],
     }
-    return cov, st.violations
+    return finish(cov, st)
 
 
 # ------------------------------------------------------------------ C09
@@ -778,7 +778,7 @@ def run_c09(tier):
         'samples': [{'value': str(36 ** 3 - 1), 'base': 36, 'text': 'ZZZ'}, {'value': '-3/4', 'text': '-3/4'},
                     {'value': 'NaN', 'text': R.NAN_TEXT}],
     }
-    return cov, st.violations
+    return finish(cov, st)
 
 
 # ------------------------------------------------------------------ replay
